@@ -295,7 +295,11 @@ func Run(dir, tier string, seed int64) error {
 		}
 		return env
 	}
-	strs := append([]string{"benign"}, hostile...)
+	big := strings.Repeat("<&\"x]]>", 250) // 2 kB; 20 kB in the thorough tier
+	if tier == "thorough" {
+		big = strings.Repeat("<&\"x]]>", 2500)
+	}
+	strs := append(append([]string{"benign"}, hostile...), big)
 	for _, h := range strs {
 		env := mkEnv(h)
 		st := env.Storage
@@ -553,7 +557,7 @@ func Run(dir, tier string, seed int64) error {
 		codec(samlxml.EncodingDeflate, true, m, "malformed-base64-or-deflate")
 		codec("", true, m, "malformed-base64")
 	}
-	run.Res.Rule = "documents: every message kind the IdP emits (success Response over POST and Redirect, failed Response from callback and from SSO incl. status messages that repeat decoder / storage error text, LogoutResponse success and failed, SOAP attribute response, metadata) produced by the real endpoints with each of 33 hostile strings (XML metacharacters, CDATA and comment delimiters, closing tags, controls, NUL, CR/LF/TAB, U+FFFE/U+FFFF, surrogates and other invalid UTF-8, supplementary planes) in every data position that can carry it (user attributes and custom attribute names/formats/values, NameID, request ID, ACS URL, organisation and contact data; request IDs only for XML-legal strings), plus the library's Marshal on 7 message types with every string field hostile to depth 4; each document is compared byte for byte with the Coq print of its raw token tree (so the lexer theorems apply to the real bytes), parsed by a generic strict parser (single well-formed document, same element/attribute structure as with benign data, every value returned up to U+FFFD replacement) and by the library decoders (DecodeResponse / Unmarshal: fields equal). escape: xml.EscapeText vs the model on hostile and random byte strings. codec: DeflateAndBase64 then InflateAndDecode on random, repetitive and document inputs (0..1000 bytes; sizes around the cap are C14's), base64 layer vs model, 19 unrecognised encoding identifiers (near misses: whitespace-only, padded, case variants, prefixes) x b64 on/off, malformed base64/DEFLATE. distinct = (flow or codec class, size class)."
+	run.Res.Rule = "documents: every message kind the IdP emits (success Response over POST and Redirect, failed Response from callback and from SSO incl. status messages that repeat decoder / storage error text, LogoutResponse success and failed, SOAP attribute response, metadata) produced by the real endpoints with each of 34 hostile strings (incl. one of 2 kB, 20 kB in the thorough tier) (XML metacharacters, CDATA and comment delimiters, closing tags, controls, NUL, CR/LF/TAB, U+FFFE/U+FFFF, surrogates and other invalid UTF-8, supplementary planes) in every data position that can carry it (user attributes and custom attribute names/formats/values, NameID, request ID, ACS URL, organisation and contact data; request IDs only for XML-legal strings), plus the library's Marshal on 7 message types with every string field hostile to depth 4; each document is compared byte for byte with the Coq print of its raw token tree (so the lexer theorems apply to the real bytes), parsed by a generic strict parser (single well-formed document, same element/attribute structure as with benign data, every value returned up to U+FFFD replacement) and by the library decoders (DecodeResponse / Unmarshal: fields equal). escape: xml.EscapeText vs the model on hostile and random byte strings. codec: DeflateAndBase64 then InflateAndDecode on random, repetitive and document inputs (0..1000 bytes; sizes around the cap are C14's), base64 layer vs model, 19 unrecognised encoding identifiers (near misses: whitespace-only, padded, case variants, prefixes) x b64 on/off, malformed base64/DEFLATE. distinct = (flow or codec class, size class)."
 	return run.Finish()
 }
 
